@@ -43,6 +43,17 @@ CHECKS.update({
          "Cancellation is observed only through Done() polls of the executor (as the property's mechanism says); k <= 64 covers every poll of the paths and documents in the bound.", "6 C20"),
 })
 
+CHECKS.update({
+ "C02": ("The real printer (AST.String with strconv.Quote) and the real lexer/parser are executed on symbolic inputs and composed: every BMP code point (1-3 symbolic UTF-8 bytes; astral by sample) as string / key / variable content next to characters that interact with escaping; every operator as operand of every other operator with and without trailing accessors (fully parenthesised generator, depth 2); all .** bound combinations; integer and non-integer literal spellings with symbolic digits; the pool paths through MarshalText/Binary, Value/Scan. Checked: the printed text parses, the tree (walked through exported accessors) and mode/predicate flags are unchanged, String is a fixed point.",
+         "Symbolic bytes are decided by exhaustive evaluation of the path condition over their small domain (<= 16 bits at a time) instead of an SMT call where possible; larger domains go to the solver. Known findings listed: exists/!/is unknown followed by an accessor print unparsable text, and integral numeric literals (4.0) print as integers -- both pinned by the repository's own ast tests. 'Returns the same results on every document' follows from tree equality and is not executed separately.", "6 C02"),
+ "C03": ("Token value independent of what follows (two symbolic ASCII bytes, escapes included, at end of input vs before white space / newline / an operator, for keys, variables and strings); every escape form with symbolic hex digits against a reference decoder (lone surrogates and NUL rejected); decimal/hex/octal/binary/underscore integer spellings against digit-sum arithmetic; keywords in every letter case (true/false/null lower case only); all ordered pairs of binary operators, connectives, comparisons, unary signs and redundant parentheses against the documented precedence table; white space and comments at every token boundary; IsPredicate/PgIndexOperator on the pool.",
+         "Exponent/fraction number forms: value goes through strconv.ParseFloat (covered only for round-tripping in C02). Non-ASCII identifier characters: xid is modelled by the unicode tables without the NFKC closure step. Token texts of <= 3 bytes.", "6 C03"),
+ "C04": ("Parse is executed on every string of <= 3 ASCII bytes (thorough 4), every string of <= 2 arbitrary bytes in 8 lexical contexts (thorough 4), every 3-byte sequence behind 5 lead bytes (thorough all 16) as a token, inside an identifier and inside a string, integer literals crossing the int64 range in all four radixes and numeric literals with exponents far outside float64 (symbolic digits), all sign sequences of length <= 3 before 10 operand kinds, 44 near-misses of the validity rules, and like_regex flag strings x 17 patterns: never a panic (built-in check), never both nil, errors wrap ErrPath and ErrParse; MustParse panics iff Parse errs; Scan/UnmarshalText/UnmarshalBinary fail on the same inputs with ErrScan wrapping ErrParse; an accepted like_regex executes without panicking.",
+         "Hangs: every path runs under a step budget of 2M SSA instructions (none was exhausted). Longer inputs are outside the bound. regexp/syntax.Parse and regexp.MustCompile run natively on concrete patterns.", "6 C04"),
+ "C19": ("Interleavings are not explored; the schedule-quantified property is reduced to a frame condition that is decided over inputs: with the parsed path, document, variables and all package-level state (goyacc tables, parser switches, error values) frozen, no entry point, String or Parse performs a store, map update or append into frozen memory on any symbolic path over the pool; plus: a query returns the same result and String whatever was executed on the same *Path before.",
+         "Sound for race freedom under the Go memory model provided stdlib calls behind stubs (regexp.MustCompile, time, reflect) are goroutine-safe as documented. Native confirmation of a counterexample compares a deep dump of the frozen objects before and after the call (value-changing writes only).", "6 C19"),
+})
+
 NA = {}
 
 def main():
